@@ -127,6 +127,96 @@ theorem graphOf_ok (p : Proj) (hnd : (names p).Nodup) (hne : names p ≠ [])
       show (names p).length - rk d < (names p).length - rk v
       omega
 
+/-! ### acceptance and the dependency graph do not depend on the iteration order of the Go maps -/
+
+theorem scanDeps_none_iff (en dis : List Name) :
+    ∀ (l : List Dep) (es : List Name),
+      (scanDeps en dis l es).1 = none ↔ ∀ d ∈ l, en.contains d.name = true ∨ d.required = false := by
+  intro l
+  induction l with
+  | nil => intro es; simp [scanDeps]
+  | cons d r ih =>
+    intro es
+    simp only [scanDeps]
+    by_cases hen : en.contains d.name = true
+    · simp only [hen, if_true]
+      rw [ih]
+      constructor
+      · intro h x hx
+        rcases List.mem_cons.mp hx with rfl | hx
+        · exact .inl hen
+        · exact h x hx
+      · intro h x hx; exact h x (List.mem_cons_of_mem _ hx)
+    · simp only [hen, Bool.false_eq_true, if_false]
+      by_cases hreq : d.required = true
+      · simp only [hreq, if_true]
+        constructor
+        · intro h; cases h
+        · intro h
+          rcases h d (List.mem_cons_self ..) with h1 | h1
+          · exact absurd h1 hen
+          · rw [hreq] at h1; cases h1
+      · simp only [hreq, Bool.false_eq_true, if_false]
+        rw [ih]
+        constructor
+        · intro h x hx
+          rcases List.mem_cons.mp hx with rfl | hx
+          · right; simpa using hreq
+          · exact h x hx
+        · intro h x hx; exact h x (List.mem_cons_of_mem _ hx)
+
+theorem build_none_iff (en dis : List Name) :
+    ∀ (l : List Svc) (adj : List (Name × List Name)),
+      (build en dis l adj).1 = none ↔ ∀ s ∈ l, ∀ d ∈ s.deps, en.contains d.name = true ∨ d.required = false := by
+  intro l
+  induction l with
+  | nil => intro adj; simp [build]
+  | cons s r ih =>
+    intro adj
+    simp only [build]
+    have hs := scanDeps_none_iff en dis s.deps []
+    generalize scanDeps en dis s.deps [] = r0 at hs ⊢
+    obtain ⟨e, es⟩ := r0
+    cases e with
+    | some e =>
+      simp only at hs ⊢
+      constructor
+      · intro h; cases h
+      · intro h
+        have := hs.mpr (h s (List.mem_cons_self ..))
+        cases this
+    | none =>
+      simp only at hs ⊢
+      rw [ih]
+      have h0 := hs.mp trivial
+      constructor
+      · intro h x hx
+        rcases List.mem_cons.mp hx with rfl | hx
+        · exact h0
+        · exact h x hx
+      · intro h x hx; exact h x (List.mem_cons_of_mem _ hx)
+
+/-- membership in the dependency graph, without any reference to an order -/
+theorem mem_depAdj_iff (p : Proj) (hnd : (names p).Nodup) (v c : Name) :
+    c ∈ depAdj p v ↔ ∃ s ∈ p.services, s.name = v ∧ (∃ d ∈ s.deps, d.name = c) ∧ c ∈ names p := by
+  constructor
+  · intro h
+    unfold depAdj at h
+    cases hf : p.services.find? (·.name == v) with
+    | none => rw [hf] at h; cases h
+    | some s =>
+      rw [hf] at h
+      have hn := List.find?_some hf
+      simp only [beq_iff_eq] at hn
+      simp only [enabledDeps, List.mem_map, List.mem_filter, List.contains_iff_mem] at h
+      obtain ⟨d, ⟨hd, hen⟩, rfl⟩ := h
+      exact ⟨s, List.mem_of_find?_eq_some hf, hn, ⟨d, hd, rfl⟩, List.mem_map.mpr hen⟩
+  · rintro ⟨s, hs, rfl, ⟨d, hd, rfl⟩, hen⟩
+    unfold depAdj
+    rw [find_of_nodup p.services hnd s hs]
+    simp only [enabledDeps, List.mem_map, List.mem_filter, List.contains_iff_mem]
+    exact ⟨d, ⟨hd, List.mem_map.mp hen⟩, rfl⟩
+
 /-- what `plan` answers, case by case, in terms of `DepGraph.run` -/
 theorem plan_cases (p : Proj) (inverse : Bool) (maxc : Int) (after : List Name) :
     (∃ cls, plan p inverse maxc after = .refused cls ∧ (run p).cls = cls ∧ cls ≠ "ok") ∨
